@@ -21,6 +21,7 @@ type hMod struct {
 	i1, i2 *InstAdd
 	named  *InstAdd
 	al     *InstAlloca
+	dup    *InstAdd // the first of two values named "dup"
 }
 
 func hC14Build(n1, n2 string) *hMod {
@@ -46,11 +47,17 @@ func hC14Build(n1, n2 string) *hMod {
 	lg.SetName("lg")
 	le := b.NewLoad(types.I32, constant.NewGetElementPtr(types.I32, g0, zero32)) // a constant expression as operand
 	le.SetName("le")
+	// two values that (for the time being) share a name: a state front ends pass
+	// through; edit 18 renames the first
+	d1 := b.NewAdd(i1, constant.NewInt(types.I32, 7))
+	d1.SetName("dup")
+	d2 := b.NewAdd(i1, constant.NewInt(types.I32, 8))
+	d2.SetName("dup")
 	b.NewRet(i2)
-	return &hMod{m: m, f: f, b: b, i1: i1, i2: i2, named: named, al: al}
+	return &hMod{m: m, f: f, b: b, i1: i1, i2: i2, named: named, al: al, dup: d1}
 }
 
-const hC14Edits = 18
+const hC14Edits = 19
 
 // hC14Edit applies edit k.  Edits 0-5 keep the numbers of already numbered
 // values; 6-9 shift them.
@@ -126,6 +133,8 @@ func hC14Edit(h *hMod, k int, nm string) {
 		ld := NewLoad(types.I32, h.al)
 		ld.SetName(nm)
 		h.b.Insts = append(h.b.Insts, ld)
+	case 18: // end a name clash: rename the first of the two values named "dup"
+		h.dup.SetName(nm + "u")
 	case 16: // rename a global that constant expressions mention
 		h.m.Globals[0].SetName(nm + "g")
 	case 17: // rename the function that a constant expression mentions
